@@ -10,6 +10,7 @@ import (
 	"io/fs"
 	"math/rand"
 	"os"
+	"path"
 	"path/filepath"
 	"sort"
 	"strings"
@@ -219,6 +220,11 @@ func runZipFiles(c *core.Case, fsl []*mzFile) zipRun {
 	if zerr != nil || len(zcf.Invalid) > 0 {
 		add("c05:created-zip-rejected", "the archive produced by Create does not pass CheckZip: %v invalid %q", zerr, errPaths(zcf.Invalid))
 	}
+	// the documented restrictions, evaluated on the produced bytes with strings.EqualFold as the oracle
+	// (independent of the collision checker that Create, CheckFiles and CheckZip share)
+	if why := archiveRestrictions(buf.Bytes()); why != "" {
+		add("c05:archive-restrictions", "the archive produced by Create breaks a documented restriction: %s", why)
+	}
 	var wantNames []string
 	for _, v := range gotV {
 		wantNames = append(wantNames, zipPrefix+v)
@@ -315,6 +321,57 @@ func checkZipFiles(c *core.Case) ([]core.Violation, bool) {
 	}
 	vs = append(vs, r.flags...)
 	return vs, len(in.Files) > 1
+}
+
+func archiveRestrictions(b []byte) string {
+	zr, err := azip.NewReader(bytes.NewReader(b), int64(len(b)))
+	if err != nil {
+		return "not a zip archive: " + err.Error()
+	}
+	var rels []string
+	for _, f := range zr.File {
+		if !strings.HasPrefix(f.Name, zipPrefix) {
+			return fmt.Sprintf("entry %q lacks the prefix", f.Name)
+		}
+		rel := f.Name[len(zipPrefix):]
+		if rel == "" || path.Clean(rel) != rel || strings.HasPrefix(rel, "/") || strings.HasPrefix(rel, "../") || rel == ".." {
+			return fmt.Sprintf("entry %q is not a clean relative path", f.Name)
+		}
+		if strings.EqualFold(path.Base(rel), "go.mod") && rel != "go.mod" {
+			return fmt.Sprintf("go.mod entry %q is not the lower-case root go.mod", f.Name)
+		}
+		rels = append(rels, rel)
+	}
+	ancestors := func(p string) []string {
+		var out []string
+		for i := 0; i < len(p); i++ {
+			if p[i] == '/' {
+				out = append(out, p[:i])
+			}
+		}
+		return out
+	}
+	for i, a := range rels {
+		for j, c := range rels {
+			if i == j {
+				continue
+			}
+			if strings.EqualFold(a, c) {
+				return fmt.Sprintf("entries %q and %q are equal under case folding", a, c)
+			}
+			for _, d := range ancestors(c) {
+				if strings.EqualFold(a, d) {
+					return fmt.Sprintf("entry %q is a file and, through %q, a directory", a, c)
+				}
+				for _, e := range ancestors(a) {
+					if d != e && strings.EqualFold(d, e) {
+						return fmt.Sprintf("directories %q and %q differ only in case", d, e)
+					}
+				}
+			}
+		}
+	}
+	return ""
 }
 
 // treeable: the list can be materialized as a directory tree of regular files (no VCS directories)
@@ -594,9 +651,9 @@ func checkZipArchive(c *core.Case) ([]core.Violation, bool) {
 }
 
 var zipElems = []string{"a", "A", "b.go", "go.mod", "GO.MOD", "vendor", "modules.txt", "sub", "é", "É", "\u212a", "k", "\u017f", "s", "con", "aux.txt", "a~1", "a b",
-	".", "..", "a.", ".hg_archival.txt", "LICENSE", "中", "pkg", "x.go", "Sub", "v2", "internal", "x*y"}
+	".", "..", "a.", ".hg_archival.txt", "LICENSE", "中", "pkg", "x.go", "Sub", "v2", "internal", "x*y", "\u00b5", "\u039c", "\u03bc", "\u03b2", "\u0392"}
 
-var zipBenign = []string{"a", "b.go", "pkg", "sub", "x.go", "é", "v2", "internal", "LICENSE", "中", "k", "s", "a b", "vendor", "go.mod", "A", "Sub"}
+var zipBenign = []string{"a", "b.go", "pkg", "sub", "x.go", "é", "v2", "internal", "LICENSE", "中", "k", "s", "a b", "vendor", "go.mod", "A", "Sub", "\u039c", "\u03bc"}
 
 func randZipPath(rng *rand.Rand, benign bool) string {
 	n := 1 + rng.Intn(4)
